@@ -50,6 +50,7 @@ def run (lines : List String) : List String := Id.run do
     | ["open", w, d, t, r8] => s := openRun s (natD w) (natD d) (natD t) (natD r8); out := out ++ [answer s nd reqs ns]
     | ["write", w, r, p] => s := write s (natD w) ⟨natD r, natD p⟩; out := out ++ [answer s nd reqs ns]
     | ["close", w] => s := close s (natD w); out := out ++ [answer s nd reqs ns]
+    | ["abandon", w] => s := { s with writers := s.writers.filter (fun p => p.1 != natD w) }; out := out ++ [answer s nd reqs ns]
     | ["update", d, r, p] => s := (update s (natD d) ⟨natD r, natD p⟩).1; out := out ++ [answer s nd reqs ns]
     | ["rename", d, d2] => s := rename s (natD d) (natD d2); out := out ++ [answer s nd reqs ns]
     | ["removeOld", d, days] => s := removeOld s (natD d) (natD days); out := out ++ [answer s nd reqs ns]
